@@ -19,6 +19,7 @@ fn main() {
     let property = args[1].as_str();
     let code = match property {
         "C01" | "C04" | "C05" | "C06" | "C07" | "C08" | "C09" | "C10" | "C11" | "C14" | "C15" | "C17" | "C18" => mc::engine::run::run_property(property, tier),
+        "sweep" => mc::engine::run::run_sweep(tier),
         "C02" => mc::codec::c02::run(tier),
         "C03" => mc::codec::c03::run(tier),
         "C16" => mc::codec::c16::run(tier),
